@@ -866,6 +866,15 @@ func TestPropOddStrings(t *testing.T) {
 				return obj("m", rapid.IntRange(0, 3).Draw(t, "mn"), func() string { return val(d + 1) })
 			}
 		}
+		// plugin sources: any string is accepted as a source and must at least survive marshalling -
+		// query-only, fragment-only, empty-path, bare-scheme, percent-escaped, dot and slash sources
+		pluginSrc := func() string {
+			if rapid.Bool().Draw(t, "oddsrc") {
+				return odd("src")
+			}
+			b, _ := json.Marshal(rapid.SampledFrom([]string{"docker#v1", "?ref=main", "#v1.2.3", "%2F", "", "/", "#", "?", "a?b#c", ":", "://", "%", "%zz", "a b", "\\\\", ".", "..", "a//b", "a/", "/a", "a/b/", "http://", "x:y", "#/", "?#", "a#b#c", "%00", "@", "git@host:", "file://", "C:", "a/../b"}).Draw(t, "hostilesrc"))
+			return string(b)
+		}
 		var steps []string
 		orderedOddKey := false
 		for i, c := 0, rapid.IntRange(1, 4).Draw(t, "nsteps"); i < c; i++ {
@@ -880,7 +889,7 @@ func TestPropOddStrings(t *testing.T) {
 				steps = append(steps, `{"wait": `+odd("w")+`, `+odd("wk")+`: `+val(0)+`}`)
 			default:
 				steps = append(steps, `{"command": `+odd("c")+`, "label": `+odd("l")+`, "env": `+obj("e", rapid.IntRange(0, 2).Draw(t, "en"), func() string { return odd("ev") })+
-					`, "plugins": [{"docker#v1": `+obj("p", rapid.IntRange(0, 2).Draw(t, "pn"), func() string { return val(1) })+`}]`+
+					`, "plugins": [{`+pluginSrc()+`: `+obj("p", rapid.IntRange(0, 2).Draw(t, "pn"), func() string { return val(1) })+`}, `+pluginSrc()+`]`+
 					`, "agents": `+obj("a", rapid.IntRange(1, 3).Draw(t, "an"), func() string { return val(0) })+`}`)
 				orderedOddKey = true
 			}
